@@ -324,6 +324,63 @@ def edges_to_tests(inits, edges, limit=None, seed=0):
     return tests
 
 
+def edges_to_histories(inits, edges, chunk=120, limit_states=None, seed=0):
+    """Like edges_to_tests, but packs the edges that leave the state unchanged (queries, reads, refused
+    requests) into shared histories: for every reachable state f one or more histories
+    path(f) + [self-loop acts...], and for every state-changing edge a history path(f) + [act].
+    Returns a list of histories (lists of act dicts) and the number of edges covered."""
+    parent = {}
+    init_act = {}
+    adj = {}
+    for (o,) in inits:
+        k = skey(o["t"])
+        init_act.setdefault(k, o)
+    for (o,) in edges:
+        adj.setdefault(skey(o["f"]), []).append(o)
+    q = deque(init_act.keys())
+    seen = set(init_act.keys())
+    order = list(init_act.keys())
+    while q:
+        k = q.popleft()
+        for o in adj.get(k, ()):
+            tk = skey(o["t"])
+            if tk not in seen:
+                seen.add(tk)
+                parent[tk] = (k, o)
+                q.append(tk)
+                order.append(tk)
+    pathcache = {}
+
+    def path(k):
+        if k in pathcache:
+            return pathcache[k]
+        if k in init_act:
+            p = [init_act[k]["act"]]
+        else:
+            pk, o = parent[k]
+            p = path(pk) + [o["act"]]
+        pathcache[k] = p
+        return p
+
+    states = [k for k in order if k in adj]
+    if limit_states is not None and len(states) > limit_states:
+        rnd = random.Random(seed)
+        keep = set(rnd.sample(states, limit_states))
+        keep.update(init_act.keys())
+        states = [k for k in states if k in keep]
+    hists = []
+    covered = 0
+    for k in states:
+        loops = [o["act"] for o in adj[k] if skey(o["t"]) == k]
+        moves = [o["act"] for o in adj[k] if skey(o["t"]) != k]
+        for i in range(0, len(loops), chunk):
+            hists.append(path(k) + loops[i:i + chunk])
+        for a in moves:
+            hists.append(path(k) + [a])
+        covered += len(loops) + len(moves)
+    return hists, covered
+
+
 def split_events(events):
     """Split a flat event list into histories at 'init' events."""
     hist = []
@@ -383,6 +440,7 @@ class Ctx:
         self.assumptions = []
         self.violations = 0
         self.known = load_known()
+        self.classes = {}
         self.rnd = random.Random(seed)
         os.makedirs(REPLAYS, exist_ok=True)
         os.makedirs(EVID, exist_ok=True)
@@ -412,6 +470,9 @@ class Ctx:
                 log(line)
             return False
         self.violations += 1
+        key = "%s/%s/%s/%s" % (sig.get("tag", sig.get("kind")), sig.get("op"), (sig.get("r") or {}).get("k"),
+                               str((sig.get("r") or {}).get("msg", (sig.get("r") or {}).get("e", "")))[:60])
+        self.classes[key] = self.classes.get(key, 0) + 1
         if self.violations <= 5:
             n = self.violations
             path = os.path.join(REPLAYS, "%s-%s-%d-%d.json" % (self.pid, self.tier, self.seed, n))
@@ -438,6 +499,8 @@ class Ctx:
             raise ToolError("no model-checking statistics recorded")
         with open(os.path.join(EVID, self.pid + ".json"), "w") as f:
             json.dump(ev, f, indent=1, default=str)
+        for k, v in sorted(self.classes.items()):
+            log("  violation class %s: %d" % (k, v))
         log("[done] %s %s: states=%d transitions=%d traces/tests against impl=%d violations=%d wall=%.0fs" % (
             self.pid, self.tier, self.cov["states"], self.cov["transitions"],
             self.cov["traces_validated_against_impl"], self.violations, wall))
